@@ -30,7 +30,7 @@ RULE = ("operation sequences on an empty CompartmentalSystemBuilder: 1-6 (quick)
         "optional bolus/infusion doses (often on several compartments), input (single terms and sums), lag time, bioavailability, sometimes an amount function not derived from the name; random flows (distinct symbols, shared symbols, "
         "rational multiples, sums of 2-3 distinct positive terms on about a third of the compartment-to-compartment flows, a few differences, the same Q or V symbol on several flows, Michaelis-Menten in the source amount and occasionally in another compartment's amount; a few self-loops), 0-3 output flows; then up to 6 (12) "
         "seeded builder operations (add/remove compartment, add/remove flow, move/set/add/remove dose, set lag/F/input, "
-        "subs (unpatched; the model relabels in node order), to_dict/from_dict), some through stale compartment "
+        "subs (unpatched; the model relabels in node order; keys that are symbols, amount functions or compound subexpressions of rates, given as str or as Expr), to_dict/from_dict), some through stale compartment "
         "references. Everything is compared after every operation. non-trivial = at least 2 compartments and 1 flow at "
         "some point; distinct = distinct case JSON")
 TRUSTED = [
@@ -232,7 +232,7 @@ def gen_case(rng: random.Random, tier: str):
         elif r < 0.88:
             ops.append(["setinput", tgt, gen_expr_small(rng, "R", fresh())])
         elif r < 0.95:
-            ops.append(["subs", rng.choice(["AMT", "KS", "sym", "sym", "all"]), rng.randrange(1 << 20)])
+            ops.append(["subs", rng.choice(["AMT", "KS", "sym", "sym", "all", "amount", "amount", "compound", "mixed"]), rng.randrange(1 << 20)])
         else:
             ops.append(["roundtrip"])
     return {"kind": "ops", "ops": ops, "seed": rng.randrange(1 << 30)}
@@ -378,6 +378,7 @@ class Sim:
         self.cb = CompartmentalSystemBuilder()
         self.last = {}   # name -> most recent Compartment object seen under that name
         self.first = {}  # name -> first object (stale reference source)
+        self.subst_checks = []  # (step, atom table, [(wire expr, really substituted expr)]) for the driver's substexpr
 
     def cur(self, ref):
         """resolve 'NAME' (current object, else last seen) or '~NAME' (first object ever: usually stale)"""
@@ -820,6 +821,13 @@ def run_case(case, drv):
                 compare_obs(step, m[1], real, rng, k)
                 if k:
                     break
+            for step, table, pairs in ([] if k else sim.subst_checks):
+                for w_e, real_e in pairs:
+                    m_e = exprconv.from_sexp(drv.ask(["substexpr", table, w_e]))
+                    tags.append("q:substexpr")
+                    if not eq_pts(m_e, sym_of(real_e), rng):
+                        k.append(f"step {step}: substitution {table} of {w_e}: model {m_e} code {real_e}")
+                        break
             if not k:
                 for i in idxs:
                     k_collect(i, real_steps[i][2], real_steps[i][1], drv, rng, k, tags)
@@ -886,20 +894,59 @@ def k_collect(step, cs, real, drv, rng, k, tags):
 
 
 def subs_map(which, cs, rng):
+    """a substitution as {str: str} (JSON-able) and the form in which it is handed to subs: 'str' keys/values, or 'expr'
+    (Expr keys and values, as pharmpy's own callers do: odes.subs({numer: ...})).  Kinds of keys: plain symbols,
+    amount functions of compartments (A_CENTRAL(t) -> A_CENTRALN(t)), compound subexpressions of rates (CL5/V2 -> KC)."""
     syms = sorted((str(s) for s in cs.free_symbols if str(s) != "t"))
-    if not syms:
-        return None
+    comps = [c for c in cs._g.nodes if c is not output]
+    mp = {}
+
+    def sym_keys(k):
+        for s_ in rng.sample(syms, min(len(syms), k)):
+            mp[s_] = s_ + "_N"
+
+    def amount_keys(k):
+        for c in rng.sample(comps, min(len(comps), k)):
+            a = str(c.amount)
+            if a.endswith("(t)"):
+                mp[a] = a[:-3] + "N(t)"
+
+    def compound_keys(k):
+        cands = []
+        for _, _, r in cs._g.edges.data("rate"):
+            e = sym_of(r)
+            if not e.is_Atom and not isinstance(e, AppliedUndef):
+                cands.append(e)
+                cands += [x for x in e.args if not x.is_Atom and not isinstance(x, AppliedUndef) and not x.is_Number]
+        cands = sorted({str(c_) for c_ in cands})
+        for i, key in enumerate(rng.sample(cands, min(len(cands), k))):
+            mp[key] = "KC%d_N" % i
+
     if which == "AMT":
-        pick = [s for s in syms if s == "AMT"]
+        if "AMT" in syms:
+            mp["AMT"] = "AMT_N"
     elif which == "KS":
-        pick = [s for s in syms if s == "KS"]
+        if "KS" in syms:
+            mp["KS"] = "KS_N"
     elif which == "all":
-        pick = syms
+        sym_keys(len(syms))
+    elif which == "amount":
+        amount_keys(rng.randint(1, 2))
+        if rng.random() < 0.5:
+            sym_keys(1)
+    elif which == "compound":
+        compound_keys(rng.randint(1, 2))
+        if rng.random() < 0.3:
+            sym_keys(1)
+    elif which == "mixed":
+        amount_keys(1)
+        compound_keys(1)
+        sym_keys(rng.randint(0, 2))
     else:
-        pick = rng.sample(syms, min(len(syms), rng.randint(1, 3)))
-    if not pick:
-        return None
-    return {s: s + "_N" for s in pick}
+        sym_keys(rng.randint(1, 3))
+    if not mp:
+        return None, None
+    return mp, rng.choice(["str", "expr", "expr"])
 
 
 def central_name(cs):
@@ -945,10 +992,20 @@ def do_subs(op, sim, rng, mon, tags, step):
     the builder by one made from the substituted system."""
     cs = CompartmentalSystem(sim.cb)
     orng = random.Random(op[2])
-    mp = subs_map(op[1], cs, orng)
-    if mp is None:
+    mp_str, form = subs_map(op[1], cs, orng)
+    if mp_str is None:
         return None
+    mp = dict(mp_str) if form == "str" else {Expr(a): Expr(b) for a, b in mp_str.items()}
+    tags.append("subs:keys-" + form)
     comps = [c for c in cs._g.nodes if c is not output]
+    amount_strs = {str(c.amount) for c in comps}
+    if any(a in amount_strs for a in mp_str):
+        tags.append("subs:amount-key")
+        if any(sym_of(r).has(*[sym_of(c.amount) for c in comps if str(c.amount) in mp_str]) for _, _, r in cs._g.edges.data("rate")):
+            tags.append("subs:amount-key-in-a-rate")
+    atom_key = lambda a: sym_of(Expr(a)).is_Symbol or isinstance(sym_of(Expr(a)), AppliedUndef)  # noqa: E731
+    if any(not atom_key(a) for a in mp_str):
+        tags.append("subs:compound-key")
     cs2 = cs.subs(mp)
     changed = [c for c in comps if c.subs(mp) != c]
     # monitor: the result must not depend on hash randomisation.  Witness class of the former defect: at least two
@@ -958,7 +1015,7 @@ def do_subs(op, sim, rng, mon, tags, step):
         tags.append("subs:hashseed-probe")
         here = [cs2.compartment_names, [getattr(c, "name", "@out") for c in cs2._g.nodes], central_name(cs2)]
         here[2] = None if here[2] == "none" else here[2]
-        answers = subs_in_fresh_interpreters(cs, mp)
+        answers = subs_in_fresh_interpreters(cs, mp_str)
         distinct = []
         for a in [here] + answers:
             if a not in distinct:
@@ -987,6 +1044,32 @@ def do_subs(op, sim, rng, mon, tags, step):
             ok, what = False, "number of flows changed"
     if not ok:
         mon.append({"cls": "subs-changes-structure", "what": f"step {step}: cs.subs({mp}): {what}"})
+    if sorted(by2) == sorted(c.name for c in comps):
+        # the equations of cs.subs(s) are s applied to the equations of cs (matched by compartment), and the substituted
+        # system is closed over its own amounts vector whenever the original was
+        e1 = {n_: e._sympy_().rhs for n_, e in zip(cs.compartment_names, cs.eqs)}
+        e2 = {n_: e._sympy_().rhs for n_, e in zip(cs2.compartment_names, cs2.eqs)}
+        # (for keys that are atoms only: replacing a compound subexpression does not commute with the arithmetic that
+        # forms the equations, CL/V is no longer a subterm of CL*A/V)
+        for n_ in (e1 if all(atom_key(a) for a in mp_str) else []):
+            want = sym_of(Expr(e1[n_]).subs(mp))
+            if not eq_pts(want, e2[n_], rng):
+                mon.append({"cls": "subs-equations-do-not-commute", "what": f"step {step}: cs.subs({mp_str}): equation of {n_} is "
+                            f"{e2[n_]}, the substituted original is {want}"})
+                break
+        am1 = {sym_of(c.amount) for c in comps}
+        am2 = {sym_of(c.amount) for c in cs2._g.nodes if c is not output}
+        f1 = set().union(*[e.atoms(AppliedUndef) for e in e1.values()]) if e1 else set()
+        f2 = set().union(*[e.atoms(AppliedUndef) for e in e2.values()]) if e2 else set()
+        if f1 <= am1 and not f2 <= am2:
+            mon.append({"cls": "subs-not-closed", "what": f"step {step}: after cs.subs({mp_str}) the equations mention "
+                        f"{sorted(map(str, f2 - am2))}, not in the amounts vector {sorted(map(str, am2))}"})
+    # atom-level K: when every key is a symbol or an applied function the model substitutes the wire expressions itself
+    if all(atom_key(a) for a in mp_str):
+        table = [[str(sym_of(Expr(a))), ex(Expr(b))] for a, b in sorted(mp_str.items())]
+        pairs = [(ex(r), r.subs(mp)) for _, _, r in cs._g.edges.data("rate")]
+        pairs += [(ex(c.input), c.subs(mp).input) for c in comps] + [(ex(c.amount), c.subs(mp).amount) for c in comps]
+        sim.subst_checks.append((step, table, pairs))
     rates = []
     for _, _, r in cs._g.edges.data("rate"):
         pr = [ex(r), ex(r.subs(mp))]
